@@ -23,9 +23,13 @@ Oracle (independent of the model, evaluated on the real observations after every
      (Python, real parser for the texts), the request is refused as circular exactly at the first entry whose
      expression closes a cycle in the configuration restored so far — a cycle-free document is never refused as
      circular —, and an accepted restore installs exactly the document.
+Long chains (`long` cases, see the section "long chains" below): the same oracle on hubs of up to 600 (thorough 780) ports;
+in those cases an internal error (500 / RecursionError) answered to a parseable assignment on a live port is a property
+failure too (neither "rejected as circular" nor "not rejected").
 """
 import itertools
 import asyncio
+import json
 import logging
 import sys
 
@@ -82,6 +86,81 @@ LITS = ['0', '1', '2.5', '-3', 'true', 'false', '100']
 BAD = ['ADD({r}, 1', 'NOSUCHFN({r}, 1)', 'ADD({r})', 'ADD({r},, 1)', 'ADD({r}, 1))', '{r}!', 'IF({r}, 1)',
        'ADD(@{i}, 1)', '   ', '{r} {r}', 'MUL(2, ADD({r}, ))']
 MAX_PORTS = 10
+
+
+# ---------------------------------------------------------------------------------------------- long chains
+# The property speaks of ANY sequence of assignments, so the length of a chain of ports reading one another is not
+# bounded. A `long` case builds c000 -> c001 -> ... -> c<n-1> (every link `wrap(d, $next)`, d = nesting depth of the
+# reference inside function calls) plus two side ports x0, x1 WITHOUT the per-op snapshots of the ordinary cases (the
+# prelude is checked as a whole: every link accepted, the chain installed as given, model dump equal), and then runs a
+# few ordinary ops (`ops`, the tail) on that hub through the usual oracle: assignments closing a cycle through up to n
+# ports must be refused as circular (previous expression kept), acyclic ones walking the whole chain must be accepted.
+#
+# Python's recursion limit: check_loops_rec costs (1 + d) interpreter frames per port on the path, so the UNCHANGED code
+# answers 500 'maximum recursion depth exceeded' from ports x (1 + d) >= 990 on (known finding
+# C04-deep-chain-recursion-limit, witnesses in the corpus). Generated chains stay at <= LONG_FRAME_BUDGET frames.
+LONG_LENGTHS_QUICK = [40, 130, 200, 300, 600]
+LONG_LENGTHS_THOROUGH = [40, 130, 200, 300, 600, 780]
+LONG_FRAME_BUDGET = 800        # (n + 3) * (1 + d) stays below this in generated cases
+LONG_KNOWN_FRAMES = 900        # an internal error counts as the known finding only from this many frames on
+LONG_SIDE = ['x0', 'x1']
+P_LONG = 0.02
+
+
+def long_id(i):
+    return f'c{i:03d}'
+
+
+def long_wrap(d, ref, variant=0):
+    """`ref` nested inside d function calls (two shapes per depth)."""
+    one = ['l', '1']
+    if d <= 0:
+        return ref
+    if d == 1:
+        return ['c', 'ADD', [ref, one]] if variant % 2 == 0 else ['c', 'MUL', [['l', '2'], ref]]
+    if d == 2:
+        return (['c', 'ADD', [one, ['c', 'MUL', [ref, ['l', '2']]]]] if variant % 2 == 0 else
+                ['c', 'MIN', [['l', '100'], ['c', 'ABS', [ref]]]])
+    if d == 3:
+        return (['c', 'IF', [one, ['c', 'NOT', [['c', 'ADD', [ref, one]]]], ['l', '0']]] if variant % 2 == 0 else
+                ['c', 'SUB', [['c', 'ABS', [['c', 'MUL', [['l', '2'], ref]]]], one]])
+    return ['c', 'ADD', [one, long_wrap(d - 1, ref, variant)]]
+
+
+def long_prelude(spec):
+    """(ids to add, [(port, tree)] link assignments in the order they are made) of a `long` case."""
+    n, d = spec['n'], spec['wrap']
+    ids = [long_id(i) for i in range(n)] + LONG_SIDE
+    gaps = [g for g in spec.get('gaps', []) if 0 <= g < n - 1]
+    if spec.get('rev'):
+        order = list(range(n - 2, -1, -1))
+    else:
+        order = [i for i in range(n - 1) if i not in set(gaps)] + gaps
+    links = [(long_id(i), long_wrap(d, ['v', long_id(i + 1)], i)) for i in order]
+    return ids, links
+
+
+def long_bucket(n):
+    for b in (10, 50, 125, 250, 500):
+        if n <= b:
+            return f'<={b}'
+    return '>500'
+
+
+def walk_depth(graph, live, refs):
+    """Number of ports on the longest path the check has to follow from `refs` (exact on chains / forests)."""
+    frontier, seen, d = [q for q in set(refs) if q in live], set(), 0
+    while frontier:
+        d += 1
+        seen.update(frontier)
+        nxt = []
+        for x in frontier:
+            for y in graph.get(x, ()):
+                if y in live and y not in seen:
+                    seen.add(y)
+                    nxt.append(y)
+        frontier = nxt
+    return d
 
 
 # ---------------------------------------------------------------------------------------------- expression trees
@@ -248,7 +327,14 @@ class C04(Prop):
             'edited meanwhile, the port loaded again by core.ports.load / POST / restart), and concurrent batches: 2-3 assignments started together (tasks created in a '
             'given order) after some of their ports got a running value sequence (PATCH /ports/<id>/sequence, long delays), '
             'were disabled, or have evaluations pending; chain / diamond scenarios steer towards long cycles. Non-trivial = at least one circular '
-            'refusal AND one accepted assignment reading a live port; distinct = distinct (outcomes, final graph)')
+            'refusal AND one accepted assignment reading a live port; distinct = distinct (outcomes, final graph). '
+            'LONG CHAINS (2 % of the cases + 7 fixed ones in the corpus, so every run has chains of 130, 200, 260, 300 and 600 ports): '
+            'c000 -> ... -> c<n-1>, n drawn from {40, 130, 200, 300, 600} (thorough: + 780) +- 12 %, every link wrap_d($next) with '
+            'nesting depth d such that (n + 3)(1 + d) <= 800 interpreter frames, links assigned front to back, back to front (n <= 200) '
+            'or with 1-3 links assigned last, built through POST /ports + PATCH /ports/<id> and judged as a whole (all accepted, installed as '
+            'given, model equal), then 3-12 ordinary ops through the full oracle: the far end / a middle port / the far end via a side port reads an '
+            'earlier link (cycle through up to n + 1 ports: refused, previous expression kept), a side port reads the head, forward shortcuts, '
+            'a cut link making the same assignment acyclic (accepted) and the mended link closing the cycle again, direct check_loops calls')
     CORRESPONDENCE = ('Deps.step / Deps.checkLoops <-> api.funcs.ports.{post_ports,delete_port,patch_port}, '
                       'BasePort.set_attr("expression"), core.expressions.check_loops, restart via core.ports.load; '
                       'Deps.remaining / restoreOver <-> api.funcs.ports.put_ports')
@@ -258,7 +344,8 @@ class C04(Prop):
     ASSUMPTIONS = ['only local ports (virtual ones and writable driver ports); slave ports and port id mappings are out of scope',
                    'the id of a driver port is never used for a virtual port (an entry of a PUT /ports body that names a '
                    'driver port which is absent is left out of the request)',
-                   'chains stay far below the Python recursion limit (check_loops_rec recurses once per port on a path)',
+                   'generated chains stay at <= 800 interpreter frames of check_loops_rec (ports on the path x (1 + nesting depth)); from 990 '
+                   'frames on the unchanged code answers 500 (known finding C04-deep-chain-recursion-limit, two witnesses in the corpus)',
                    'atomicity of check_loops + store to _expression w.r.t. the event loop is not proved; it is watched by the '
                    'concurrent batch cases (result acyclic and equal to some serial order)']
 
@@ -328,11 +415,93 @@ class C04(Prop):
                                           ['check', 'p1', ['v', 'p0'], 0]]})
         return cases
 
+    @staticmethod
+    def _long_fixed(n, d, rev=False, gaps=()):
+        """Deterministic long-chain case: both directions of the property on a chain of n ports (see `long_prelude`)."""
+        c, last, mid = long_id, long_id(n - 1), n // 2
+        w = lambda ref, k=0: long_wrap(d, ref, k)
+        tail = [['set', last, ['c', 'ADD', [['s'], ['v', 'x1']]], 0],        # the expression a refusal must keep
+                ['set', 'x0', w(['v', c(0)]), 0],                             # acyclic, walks all n ports: accepted
+                ['set', last, w(['v', c(0)], 1), 0],                          # closes a cycle through n ports: refused
+                ['check', last, ['v', c(1)], 0],                              # n - 1 ports
+                ['seta', last, ['c', 'MUL', [['v', 'x0'], ['l', '2']]], 2],   # n + 1 ports, through the side port
+                ['set', c(mid), ['c', 'ADD', [['v', c(mid + 1)], ['v', c(0)]]], 0],   # from the middle: refused
+                ['clr', c(mid)],                                              # the chain is cut ...
+                ['set', last, w(['v', c(0)]), 0],                             # ... the same assignment is acyclic now
+                ['set', c(mid), w(['v', c(mid + 1)]), 0],                     # mending the link would close n ports
+                ['set', c(mid), ['v', 'x1'], 1]]
+        return {'long': {'n': n, 'wrap': d, 'rev': bool(rev), 'gaps': list(gaps)}, 'ops': tail, 'eval': False}
+
+    def _long_corpus(self):
+        cases = [self._long_fixed(40, 3, rev=True), self._long_fixed(130, 1), self._long_fixed(130, 3, rev=True),
+                 self._long_fixed(200, 2, gaps=(150, 20)), self._long_fixed(300, 1, gaps=(7,)), self._long_fixed(600, 0),
+                 self._long_fixed(260, 0, rev=True)]
+        # witnesses of the known finding C04-deep-chain-recursion-limit (unchanged code: 500 instead of 400 / 204)
+        n = 260
+        cases.append({'long': {'n': n, 'wrap': 3, 'rev': False, 'gaps': []}, 'eval': False, 'noshrink': True,
+                      'ops': [['set', long_id(n - 1), long_wrap(3, ['v', long_id(0)]), 0]]})
+        n = 1000
+        cases.append({'long': {'n': n, 'wrap': 0, 'rev': False, 'gaps': []}, 'eval': False, 'noshrink': True,
+                      'ops': [['set', 'x0', ['v', long_id(0)], 0], ['set', long_id(n - 1), ['v', long_id(0)], 0]]})
+        return cases
+
+    def gen_long(self, rng, tier):
+        lengths = LONG_LENGTHS_QUICK if tier == 'quick' else LONG_LENGTHS_THOROUGH
+        n = rng.choice(lengths)
+        if rng.random() < 0.5:
+            n = max(8, n + rng.randint(-(n // 8), n // 8))
+        n = min(n, LONG_FRAME_BUDGET - 3)
+        dmax = min(LONG_FRAME_BUDGET // (n + 3) - 1, 5)
+        d = rng.choice([0, dmax, rng.randint(0, dmax)])
+        rev = n <= 200 and rng.random() < 0.25          # (the interpreted model is cubic in n for this order)
+        gaps = []
+        if not rev and rng.random() < 0.6:
+            gaps = rng.sample(range(n - 1), rng.randint(1, 3))
+        c, last = long_id, long_id(n - 1)
+
+        def w(ref):
+            return long_wrap(rng.choice([0, d, rng.randint(0, min(3, max(d, 1)))]), ref, rng.randrange(2))
+
+        def far():
+            r = rng.random()
+            return 0 if r < 0.5 else rng.randrange(0, n - 1) if r < 0.9 else n - 2
+
+        ws = lambda: rng.randrange(4)
+        tail = []
+        if rng.random() < 0.75:
+            tail.append(['set', last, rng.choice([['l', '1'], ['c', 'ADD', [['s'], ['l', '1']]], ['v', 'nosuch'], ['v', 'x1'],
+                                                  ['c', 'MUL', [['v', 'x1'], ['s']]]]), ws()])
+        for _ in range(rng.randint(3, 7)):
+            r = rng.random()
+            if r < 0.30:        # from the far end back to an earlier link: closes a cycle through n - k ports
+                tail.append([rng.choice(['set', 'set', 'seta', 'check']), last, w(['v', c(far())]), ws()])
+            elif r < 0.42:      # from the middle
+                j = rng.randrange(1, n)
+                k = rng.randrange(0, j)
+                tail.append(['set', c(j), ['c', 'ADD', [['v', c(k)], ['v', c(min(j + 1, n - 1))]]], ws()])
+            elif r < 0.55:      # a side port reads the chain: acyclic, the walk goes all the way down
+                tail.append([rng.choice(['set', 'seta']), rng.choice(LONG_SIDE), w(['v', c(far())]), ws()])
+            elif r < 0.65:      # ... and the far end reads the side port
+                tail.append(['set', last, w(['v', rng.choice(LONG_SIDE)]), ws()])
+            elif r < 0.75:      # forward shortcut: acyclic
+                j = rng.randrange(0, n - 1)
+                tail.append(['set', c(j), ['c', 'ADD', [['v', c(j + 1)], ['v', c(rng.randrange(j + 1, n))]]], ws()])
+            elif r < 0.87:      # cut a link: what closed a cycle before is acyclic now; mending the link closes it
+                m = rng.randrange(0, n - 1)
+                tail.append(['clr', c(m)])
+                tail.append(['set', last, w(['v', c(far())]), ws()])
+                tail.append(['set', c(m), w(['v', c(m + 1)]), ws()])
+            elif r < 0.93:
+                tail.append(['en', c(rng.randrange(n)), rng.choice([0, 0, 1])])
+            else:
+                tail.append(['check', rng.choice([last, 'x1']), w(['v', c(far())]), ws()])
+        return {'long': {'n': n, 'wrap': d, 'rev': rev, 'gaps': gaps}, 'ops': tail, 'eval': False}
+
     def corpus(self):
         v, s, c, li = (lambda i: ['v', i]), ['s'], (lambda n, *a: ['c', n, list(a)]), (lambda t: ['l', t])
         add = lambda *ids: [['add', i] for i in ids]
         st = lambda i, t, ws=0: ['set', i, t, ws]
-        return self._registry_sweep() + [
+        return self._long_corpus() + self._registry_sweep() + [
             # a port goes away with its record kept, the other half of a cycle is assigned meanwhile, the port comes back:
             # by load, by POST under the same id, by a restart
             {'ops': add('p0', 'p2') + [st('p2', c('ADD', v('p0'), li('1'))), ['unload', 'p2'],
@@ -411,6 +580,8 @@ class C04(Prop):
         ]
 
     def gen(self, rng, tier):
+        if rng.random() < P_LONG:
+            return self.gen_long(rng, tier)
         maxops = 40 if tier == 'quick' else 90
         nops = rng.randint(6, maxops)
         ids = rng.sample(POOL, rng.choice([2, 3, 4, 5, 6, 7, 8, 9, 10, 10]))
@@ -758,9 +929,45 @@ class C04(Prop):
         return {'ops': ops, 'eval': with_eval}
 
     def shrink_candidates(self, case):
+        if case.get('noshrink'):
+            return
+        spec = case.get('long')
+        if spec:
+            # a shorter chain (the tail names ports by index: only when every id it names still exists), simpler
+            # build order, then fewer tail ops
+            n = spec['n']
+            named = [int(t[1:]) for t in self._named_ids(case['ops']) if t[:1] == 'c' and t[1:].isdigit()]
+            for m in (n // 2, 3 * n // 4, n - 16, n - 4, n - 1):
+                # the far end moves with the chain: rename c<n-1> -> c<m-1>, keep the other names
+                if 3 <= m < n and all(i < m - 1 or i == n - 1 for i in named):
+                    ops = self._rename(case['ops'], long_id(n - 1), long_id(m - 1))
+                    yield {'long': dict(spec, n=m, gaps=[g for g in spec.get('gaps', []) if g < m - 1]), 'ops': ops,
+                           'eval': False}
+            if spec.get('rev') or spec.get('gaps'):
+                yield {'long': dict(spec, rev=False, gaps=[]), 'ops': case['ops'], 'eval': False}
+            if spec['wrap']:
+                yield {'long': dict(spec, wrap=spec['wrap'] - 1), 'ops': case['ops'], 'eval': False}
         for cand in self._shrink_ops(case):
             cand['eval'] = case.get('eval', True)
+            if spec:
+                cand['long'] = spec
             yield cand
+
+    @classmethod
+    def _named_ids(cls, x):
+        if isinstance(x, str):
+            return {x}
+        if isinstance(x, list):
+            return set().union(*[cls._named_ids(y) for y in x]) if x else set()
+        return set()
+
+    @classmethod
+    def _rename(cls, x, a, b):
+        if isinstance(x, str):
+            return b if x == a else x
+        if isinstance(x, list):
+            return [cls._rename(y, a, b) for y in x]
+        return x
 
     def _shrink_ops(self, case):
         ops = case['ops']
@@ -931,18 +1138,44 @@ class C04(Prop):
 
     async def _real(self, case):
         await self._reset()
+        self._pre = None
         if not case.get('eval', True):
             self.core_main.disable_updating()       # no expression is ever evaluated in this case
         try:
+            if case.get('long'):
+                self._pre = await self._real_prelude(case['long'])
+                if self._pre['failed'] is not None:
+                    return []
             return await self._real_ops(case)
         finally:
             self.core_main.enable_updating()
+
+    async def _real_prelude(self, spec):
+        """The chain of a `long` case: POST /ports for every port, PATCH /ports/<id> {"expression": …} for every link
+        (the calls the ordinary ops make), no snapshot in between. Stops at the first link that is not accepted."""
+        h, api = self.handler, self.api_ports
+        ids, links = long_prelude(spec)
+        for pid in ids:
+            await api.post_ports(h, {'id': pid, 'type': 'number'})
+        expected = {pid: '-' for pid in ids}
+        failed, done = None, 0
+        for pid, tree in links:
+            text = render(tree)
+            try:
+                await api.patch_port(h, pid, {'expression': text})
+            except Exception as e:  # noqa
+                failed = (done, pid, self._err(e))
+                break
+            expected[pid] = self._candidate_info(pid, text)[0]
+            done += 1
+        await self._quiesce()
+        return {'failed': failed, 'expected': expected, 'snap': await self._snapshot(), 'links_done': done}
 
     async def _real_ops(self, case):
         stash = []          # ids of absent ports whose persisted record is kept, newest first
         h, api = self.handler, self.api_ports
         obs = []
-        after = await self._snapshot()
+        after = self._pre['snap'] if self._pre else await self._snapshot()
         for op in case['ops']:
             kind = op[0]
             before = after
@@ -1063,9 +1296,24 @@ class C04(Prop):
         return obs
 
     # ------------------------------------------------------------------------------------------------ model side
-    def _model(self, case, obs, driver):
-        rep = driver.ask('begin')
-        assert rep == 'ok', rep
+    def _model_prelude(self, spec, pre, driver):
+        """The same prelude on the model; returns (first reply that is not `ok ok` or None, dumped state)."""
+        ids, links = long_prelude(spec)
+        bad = None
+        for pid in ids:
+            rep = driver.ask(f'add {pid}')
+            if rep != 'ok ok' and bad is None:
+                bad = (f'add {pid}', rep)
+        for pid, tree in links[:pre['links_done']]:
+            rep = driver.ask(f'set {pid} ' + ' '.join(tokens(tree)))
+            if rep != 'ok ok' and bad is None:
+                bad = (f'set {pid}', rep)
+        return bad, self._parse_dump(driver.ask('dump'))
+
+    def _model(self, case, obs, driver, begin=True):
+        if begin:
+            rep = driver.ask('begin')
+            assert rep == 'ok', rep
         res = []
         for op, ob in zip(case['ops'], obs):
             kind = op[0]
@@ -1190,19 +1438,90 @@ class C04(Prop):
             signal.signal(signal.SIGALRM, old)
 
     # ------------------------------------------------------------------------------------------------ oracle + diff
+    @staticmethod
+    def _internal(out):
+        return out.startswith('other:500') or out == 'other:RecursionError'
+
+    def _prelude_oracle(self, spec, pre, mbad, mstate, tags):
+        """The prelude of a `long` case judged as a whole. Every link `c<i> := wrap($c<i+1>)` reads the next port of the
+        chain only, so none of them closes a cycle whatever the order they are made in: each must be accepted and
+        installed as given (O3/O4), nothing else may change, and the model must agree."""
+        n, d = spec['n'], spec['wrap']
+        tags.update(['long-chain', f'long-ports{long_bucket(n)}', f'long-nesting-{min(d, 4)}',
+                     'long-order:' + ('reverse' if spec.get('rev') else 'forward+gaps' if spec.get('gaps') else 'forward')])
+        snap = pre['snap']
+        ids, links = long_prelude(spec)
+        if pre['failed'] is not None:
+            k, pid, out = pre['failed']
+            nxt = long_id(int(pid[1:]) + 1)
+            depth = walk_depth({p: x['deps'] for p, x in snap.items()}, set(snap) - {pid}, [nxt])
+            frames = depth * (1 + d)
+            where = 'recursion-limit' if self._internal(out) and frames >= LONG_KNOWN_FRAMES else ''
+            return Failure('property', f'long chain of {n} ports, link {k}: {pid} := {render(links[k][1])} closes no cycle '
+                                       f'(every link reads the next port of the chain only) but was refused with {out!r}; '
+                                       f'the check follows {depth} ports, about {frames} interpreter frames',
+                           real={'refused': [pid, out], 'links_accepted_before': k}, where=where)
+        cyc = find_cycle({p: x['deps'] for p, x in snap.items()}, set(snap))
+        if cyc:
+            return Failure('property', f'long chain of {n} ports: dependency cycle after building the chain: '
+                           + ' -> '.join(cyc[:6]) + (' ...' if len(cyc) > 6 else ''), real={'cycle': cyc})
+        got = {p: x['expr'] for p, x in snap.items()}
+        if got != pre['expected']:
+            diff = sorted(p for p in set(got) | set(pre['expected']) if got.get(p) != pre['expected'].get(p))
+            return Failure('property', f'long chain of {n} ports: every link was accepted, but {len(diff)} port(s) do not hold '
+                                       f'the expression assigned: '
+                           + ', '.join(f'{p}: {got.get(p)!r}, assigned {pre["expected"].get(p)!r}' for p in diff[:4]),
+                           real={'differing': diff[:50]})
+        stale = sorted(p for p, x in snap.items() if x['attr'] != x['expr'])
+        if stale:
+            return Failure('property', f'long chain of {n} ports: the expression attribute does not show the installed '
+                                       f'expression for {stale[:4]}', real={'stale': stale[:50]})
+        if mbad is not None:
+            return Failure('correspondence', f'long chain of {n} ports: the model answers {mbad[1]!r} to {mbad[0]!r}, the '
+                                             f'code accepted it', real='ok', model=mbad[1])
+        real_state = {p: (x['enabled'], x['expr']) for p, x in snap.items()}
+        if mstate != real_state:
+            diff = sorted(p for p in set(mstate) | set(real_state) if mstate.get(p) != real_state.get(p))
+            return Failure('correspondence', f'long chain of {n} ports: installed expressions differ after the prelude',
+                           real=[(p, real_state.get(p)) for p in diff[:20]], model=[(p, mstate.get(p)) for p in diff[:20]])
+        return None
+
     def run_case(self, case, driver):
         obs = self._run_bounded(case)
         ops = case['ops'][:len(obs)]
-        model = self._model({'ops': ops}, obs, driver)
+        spec = case.get('long')
         tags = set()
         fail = None
+        if spec:
+            pre = self._pre
+            assert driver.ask('begin') == 'ok'
+            mbad, mstate = self._model_prelude(spec, pre, driver)
+            fail = self._prelude_oracle(spec, pre, mbad, mstate, tags)
+            model = self._model({'ops': ops}, obs, driver, begin=False)
+            named = self._named_ids(case['ops']) | set(LONG_SIDE) | {long_id(0), long_id(spec['n'] - 1)}
+
+            def view(snap):     # (what a replay file / the evidence shows of a hub of hundreds of ports)
+                out = {p: snap[p] for p in sorted(named) if p in snap}
+                out['#ports'] = len(snap)
+                return out
+        else:
+            model = self._model({'ops': ops}, obs, driver)
+            view = lambda snap: snap
         n_circ = n_acc_live = 0
 
-        def prop_fail(idx, msg):
+        def prop_fail(idx, msg, where=''):
             nonlocal fail
             if fail is None:
                 fail = Failure('property', f'op {idx} {ops[idx]}: {msg}',
-                               real=[o['out'] for o in obs[:idx + 1]] + [obs[idx]['after']])
+                               real=[o['out'] for o in obs[:idx + 1]] + [view(obs[idx]['after'])], where=where)
+
+        def deep(pid, cand, graph_b, live_b, out):
+            """(where, text) for an internal error answered by a `long` case: the known finding when the walk is deep
+            enough for the recursion limit of the unchanged code."""
+            depth = walk_depth(graph_b, live_b - {pid}, [q for q in cand[1] if q != pid])
+            frames = depth * (1 + spec['wrap'])
+            return ('recursion-limit' if self._internal(out) and frames >= LONG_KNOWN_FRAMES else '',
+                    f'; the check follows {depth} ports, about {frames} interpreter frames')
 
         for idx, (op, ob) in enumerate(zip(ops, obs)):
             kind, out, before, after, cand = op[0], ob['out'], ob['before'], ob['after'], ob['cand']
@@ -1214,7 +1533,8 @@ class C04(Prop):
             graph_a = {p: d['deps'] for p, d in after.items()}
             cyc = find_cycle(graph_a, set(after))
             if cyc:
-                prop_fail(idx, 'dependency cycle among live ports afterwards: ' + ' -> '.join(cyc))
+                prop_fail(idx, 'dependency cycle among live ports afterwards: ' + (' -> '.join(cyc) if len(cyc) <= 12 else
+                               ' -> '.join(cyc[:4]) + ' -> ... -> ' + ' -> '.join(cyc[-2:]) + f' ({len(cyc) - 1} ports)'))
             exprs_b = {p: d['expr'] for p, d in before.items()}
             exprs_a = {p: d['expr'] for p, d in after.items()}
             stale = sorted(p for p, d in after.items() if d['attr'] != d['expr'])
@@ -1236,9 +1556,10 @@ class C04(Prop):
                         tags.add('dangling-reference')
                     if would:
                         d = min(dist_to(graph_b, live_b, q, pid) for q in closers) + 1
-                        tags.add(f'would-close-cycle-of-{d}')
-                        path_ports = [q for q in live_b if q != pid and any(reaches(graph_b, live_b, c0, q) for c0 in closers)
-                                      and reaches(graph_b, live_b, q, pid)]
+                        tags.add(f'would-close-cycle-of-{d}' if d <= 10 else f'would-close-cycle-of{long_bucket(d)}')
+                        path_ports = [] if spec else [
+                            q for q in live_b if q != pid and any(reaches(graph_b, live_b, c0, q) for c0 in closers)
+                            and reaches(graph_b, live_b, q, pid)]
                         if any(not before[q]['enabled'] for q in path_ports):
                             tags.add('cycle-through-disabled-port')
                 if kind == 'check':
@@ -1247,6 +1568,12 @@ class C04(Prop):
                             prop_fail(idx, 'check_loops accepts an expression that closes a cycle')
                         if would is False and out == 'loop':
                             prop_fail(idx, 'check_loops raises CircularDependency although no cycle would be closed')
+                        if spec and would is not None:
+                            tags.add('long:check-' + out)
+                    elif spec and would is not None and self._internal(out):
+                        where, text = deep(pid, cand, graph_b, live_b, out)
+                        prop_fail(idx, f'check_loops neither accepts nor refuses the expression (it '
+                                       f'{"closes a cycle" if would else "closes no cycle"}): {out!r}' + text, where)
                     if exprs_a != exprs_b:
                         prop_fail(idx, 'check_loops changed an expression')
                 else:
@@ -1274,7 +1601,15 @@ class C04(Prop):
                                 prop_fail(idx, 'refused as circular although no cycle would be closed'
                                           + (' (self reference only)' if cand and set(cand[1]) <= {pid} else ''))
                         elif would:
-                            prop_fail(idx, f'cycle-closing assignment refused with {out!r}, not with circular-dependency')
+                            where, text = deep(pid, cand, graph_b, live_b, out) if spec else ('', '')
+                            prop_fail(idx, f'cycle-closing assignment refused with {out!r}, not with circular-dependency' + text,
+                                      where)
+                        elif spec and would is False and self._internal(out):
+                            where, text = deep(pid, cand, graph_b, live_b, out)
+                            prop_fail(idx, f'assignment that closes no cycle is not accepted: {out!r}' + text, where)
+                    if spec and would is not None:
+                        tags.add('long:closing-refused' if would and out == 'circular' else
+                                 'long:acyclic-accepted' if not would and out == 'ok' else f'long:other')
             elif kind == 'batch':
                 subs = op[1]
                 serial = self._serial_results(subs, cand, before)
@@ -1319,7 +1654,9 @@ class C04(Prop):
                     fail = Failure('correspondence', f'op {idx} {op}: expression attribute differs from the model',
                                    real=sorted(attr_state.items()), model=sorted(mstate.items()))
         final = sorted((p, d['enabled'], d['expr']) for p, d in obs[-1]['after'].items()) if obs else []
-        tags.add(f'ports-{len(final)}')
+        tags.add(f'ports-{len(final)}' if not spec else 'ports-many')
+        if spec:
+            final = [json.dumps(spec, sort_keys=True)] + [t for t in final if t[0] in named]
         key = None
         if n_circ and n_acc_live:
             tags.add('nontrivial')
@@ -1407,7 +1744,12 @@ class C04(Prop):
         return res
 
     def known_match(self, finding, case, failure):
-        return False
+        """Only the recorded input class: a `long` case answered with an internal error (500 / RecursionError) by a walk
+        of at least LONG_KNOWN_FRAMES interpreter frames (`where` is set by the oracle from the real graph). A cycle
+        that gets installed, a wrong refusal, or an internal error on a shorter walk is reported as a violation."""
+        m = finding.get('match', {})
+        return bool(isinstance(case, dict) and case.get('long') and failure.kind == 'property'
+                    and failure.where and failure.where in m.get('where', []))
 
 
 PROP = C04
